@@ -1,1 +1,1 @@
-pub mod placeholder {}
+pub mod lines;
